@@ -195,6 +195,9 @@ Complete(s, t) ==
     [] o.k \in {"yield", "spin"} -> R(0, Wake(base, t))
     [] o.k \in {"sleep", "nop"} -> R(0, base)
     [] o.k = "acc" -> R(s.acc[t+1], base)
+    \* shuttle::current::reset_step_count(): steps are counted from here on
+    [] o.k = "reset_steps" -> R(0, [base EXCEPT !.rst = s.slen])
+    [] o.k = "realsleep" -> R(0, base)
     \* a draw from shuttle::rand (reduced mod 4): the value was appended to the schedule as a random marker
     [] o.k = "rand" -> R(s.rv, base)
     [] o.k = "me" -> R(t, base)
@@ -386,6 +389,13 @@ Progress(s, t) ==
     [] p \in {"once_lk", "once_in", "once_body", "once_skip", "once_fin"} -> TRUE
     [] OTHER -> FALSE
 
+\* ---- step bound (Config::max_steps): counted in schedule entries = decisions + random draws
+MaxStepsCfg(s) == Prog(s).maxsteps
+BoundN(s) == IF MaxStepsCfg(s) > 0 THEN MaxStepsCfg(s) ELSE IF MaxStepsCfg(s) < 0 THEN 0 - MaxStepsCfg(s) ELSE 3000
+BoundFails(s) == MaxStepsCfg(s) >= 0
+StepsUsed(s) == s.slen - s.rst
+BoundHit(s) == StepsUsed(s) >= BoundN(s)
+
 MustOffer(s) == {t \in Live(s) : Progress(s, t)}
 Spurious(s) == {t \in Live(s) : Ph(s, t) = "parked" /\ ~s.unpk[t+1]}
 Unfinished(s) == Live(s)
@@ -414,6 +424,17 @@ FairHeadNeverFits(s) ==
   \A x \in 1..Len(s.sem) : (s.sem[x].fair /\ s.sem[x].q # <<>>) => Head(s.sem[x].q).n > s.sem[x].avail
 BarrierBound(s) == \A b \in 1..Len(s.bar) : Cardinality(s.bar[b].arrived) < Max(s.bar[b].n, 1)
 
+\* no execution performs more than n steps
+StepBoundInv(s) == StepsUsed(s) <= BoundN(s)
+
 StateInv(s) == /\ MutexExclusion(s) /\ RwExclusion(s) /\ ChanCapacity(s) /\ SemNonNegative(s)
                /\ FairHeadNeverFits(s) /\ BarrierBound(s)
+\* the same, as a list of names of violated invariants (trace validation reports and goes on)
+Violated(s) == (IF MutexExclusion(s) THEN {} ELSE {"MutexExclusion"})
+          \cup (IF RwExclusion(s) THEN {} ELSE {"RwExclusion"})
+          \cup (IF ChanCapacity(s) THEN {} ELSE {"ChanCapacity"})
+          \cup (IF SemNonNegative(s) THEN {} ELSE {"SemNonNegative"})
+          \cup (IF FairHeadNeverFits(s) THEN {} ELSE {"FairHeadNeverFits"})
+          \cup (IF BarrierBound(s) THEN {} ELSE {"BarrierBound"})
+          \cup (IF StepBoundInv(s) THEN {} ELSE {"StepBound"})
 =============================================================================
